@@ -7,7 +7,8 @@ from core import derived_rng
 from util import call, quiet
 
 REQUIRED_THEOREMS = ['Usid.C07.rows_exact', 'Usid.C07.eager_fixup_identity', 'Usid.C07.rejections_2d',
-                     'Usid.C07.two_lists_refused']
+                     'Usid.C07.two_lists_refused', 'Usid.C07.slice2D_elements', 'Usid.C07.posSpecSlices_selected',
+                     'Usid.C07.sliceND_elements']
 RULE = ('generator datasets (any storage order) x slicing dictionaries with, per dimension, absent / each int / '
         'contiguous and strided slices (negative bounds and steps) / non-empty index subsets as list, tuple or ndarray, '
         'ndim_form and lazy in {F,T}, file-order and sorted wrapper; >= 15 %% of the 2-D results forced square and '
